@@ -416,6 +416,15 @@ class Explorer:
         if relevant is not None and not relevant(p):
             self.ctx.notes.append("oracle of another property fired in a %s scenario: %s" % (sc["cls"], p["msg"][:160]))
             return
+        if "STEP-LIMIT" in p["sig"] and r.get("spec"):
+            # the step limit is a budget, not a verdict: a run that is slow in scheduler steps (write delays, long sleeps under an
+            # unlucky schedule) but still moving is given eight times the budget before it is called a hang
+            sc8 = dict(sc, limit=8 * sc.get("limit", 40000))
+            rc, out, err = C.run_lines(self.exe, scenario_input(sc8, [r["spec"].strip()], False), timeout=600)
+            res8 = R.parse(out)
+            if res8 and res8[0]["end"] and res8[0]["end"].startswith("ok") and not res8[0]["oracle"]:
+                self.stats["slow_runs_completed_with_a_larger_step_budget"] = self.stats.get("slow_runs_completed_with_a_larger_step_budget", 0) + 1
+                return
         if p["sig"] not in self.reported:
             self.reported.add(p["sig"])
             small = self.shrink(sc, p)
